@@ -18,6 +18,7 @@ type Case struct {
 	S    int    `json:"s"`
 	Int  string `json:"int,omitempty"`  // unscaled integer (fmt)
 	Text string `json:"text,omitempty"` // input text (parse)
+	Ops  []string `json:"ops,omitempty"` // kind "hist": operations on ONE decimal object, observed at the end
 }
 
 var h *hlib.H
@@ -96,6 +97,8 @@ func mkDec(p, s int, x *big.Int) (*asetypes.Decimal, error) {
 
 func run(c Case) {
 	switch c.Kind {
+	case "hist":
+		runHist(c)
 	case "ctor":
 		var d *asetypes.Decimal
 		var err error
@@ -204,6 +207,112 @@ func run(c Case) {
 			h.Violate("C16|SetString|value-changed", fmt.Sprintf("(%d,%d) SetString(%q) stored unscaled %s, exact value is %s", c.P, c.S, c.Text, got, wantUnscaled), c)
 		}
 	}
+}
+
+// histAlphabet: operations a caller can apply to one *Decimal. String, Int,
+// IsNeg, Bytes and Cmp are pure observations in the model — but they are
+// operations of the history, because an implementation may remember things.
+var histAlphabet = []string{"String", "Negate", "SetInt64:0", "SetInt64:7", "SetInt64:-120", "SetString:1.5", "SetString:-0.25", "SetString:99999", "SetString:abc", "SetString:0.125",
+	"SetBytes:", "SetBytes:0100", "Int", "IsNeg", "Bytes", "Cmp", "Scale:1", "Scale:3"}
+
+// runHist applies c.Ops to one object and to the model (p, s, x), then observes.
+func runHist(c Case) {
+	d, err := asetypes.NewDecimal(c.P, c.S)
+	if err != nil {
+		h.Fatal("NewDecimal(%d,%d): %v", c.P, c.S, err)
+	}
+	p, sc, x := c.P, c.S, new(big.Int)
+	h.Eval(len(c.Ops) > 1)
+	h.Section("object-history", 1)
+	fail := func(sig, f string, a ...interface{}) {
+		h.Violate("C16|history|"+sig, fmt.Sprintf("(%d,%d) after %v: ", c.P, c.S, c.Ops)+fmt.Sprintf(f, a...), c)
+	}
+	pan, msg := hlib.Catch(func() {
+		for _, op := range c.Ops {
+			arg := ""
+			if i := strings.IndexByte(op, ':'); i >= 0 {
+				op, arg = op[:i], op[i+1:]
+			}
+			switch op {
+			case "String":
+				_ = d.String()
+			case "Int":
+				_ = d.Int()
+			case "IsNeg":
+				_ = d.IsNegative()
+			case "Bytes":
+				_ = d.Bytes()
+			case "Cmp":
+				_ = d.Cmp(*d)
+			case "Negate":
+				d.Negate()
+				x.Neg(x)
+			case "SetInt64":
+				var v int64
+				fmt.Sscan(arg, &v)
+				d.SetInt64(v)
+				x.SetInt64(v)
+			case "SetBytes":
+				var b []byte
+				fmt.Sscanf(arg, "%x", &b)
+				d.SetBytes(b)
+				x.SetBytes(b)
+			case "Scale":
+				var v int
+				fmt.Sscan(arg, &v)
+				if v <= p {
+					d.Scale = v
+					sc = v
+				}
+			case "SetString":
+				numeral, canon, val, fd := refParse(arg)
+				var want *big.Int
+				if numeral && canon && fd <= sc {
+					w := new(big.Rat).Mul(val, new(big.Rat).SetInt(pow10[sc]))
+					if w.IsInt() && new(big.Int).Abs(w.Num()).Cmp(pow10[p]) < 0 {
+						want = new(big.Int).Set(w.Num())
+					}
+				}
+				perr := d.SetString(arg)
+				switch {
+				case want != nil && perr != nil:
+					fail("valid-rejected", "SetString(%q) rejected: %v", arg, perr)
+				case want == nil && perr == nil:
+					fail("unrepresentable-accepted", "SetString(%q) accepted, stored %s", arg, d.Int())
+				case want != nil:
+					x.Set(want)
+				}
+			}
+		}
+	})
+	if pan {
+		fail("panic", "%s", msg)
+		return
+	}
+	if got := d.Int(); got.Cmp(x) != 0 {
+		fail("value", "unscaled value is %s, the model says %s", got, x)
+		return
+	}
+	if d.IsNegative() != (x.Sign() < 0) {
+		fail("sign", "IsNegative()=%v for unscaled %s", d.IsNegative(), x)
+		return
+	}
+	if new(big.Int).Abs(x).Cmp(pow10[p]) >= 0 {
+		h.Outcome("hist-overflowing-value") // more digits than the precision: formatting is not specified
+		return
+	}
+	want := refString(x, sc)
+	got := safeString(d)
+	if got != want {
+		fail("stale-or-wrong-text", "String()=%q, the value %s at scale %d is %q", got, x, sc, want)
+		return
+	}
+	d2, err := asetypes.NewDecimalString(p, sc, got)
+	if err != nil || d2.Int().Cmp(x) != 0 || !d.Cmp(*d2) {
+		fail("roundtrip", "text %q parses back to %v (err %v)", got, d2, err)
+		return
+	}
+	h.Outcome("hist-ok")
 }
 
 func safeString(d *asetypes.Decimal) (s string) {
@@ -370,6 +479,34 @@ func main() {
 				}
 			}
 		}
+	}
+	// object histories: every sequence of operations on one object up to the depth, observed
+	// at the end (every prefix is a sequence of its own, so every intermediate state is observed)
+	type ps struct{ p, s, depth int }
+	grids := []ps{{5, 2, 4}, {10, 0, 3}, {38, 19, 3}, {3, 3, 3}}
+	if h.Thorough {
+		grids = []ps{{5, 2, 5}, {10, 0, 4}, {38, 19, 4}, {3, 3, 4}, {38, 38, 4}, {1, 0, 4}}
+	}
+	for _, g := range grids {
+		var rec func(ops []string)
+		rec = func(ops []string) {
+			if len(ops) > 0 {
+				run(Case{Kind: "hist", P: g.p, S: g.s, Ops: append([]string{}, ops...)})
+			}
+			if len(ops) == g.depth {
+				return
+			}
+			for _, a := range histAlphabet {
+				if len(ops) == 1 { // shard on the first two operations
+					idx++
+					if !h.Mine(idx) {
+						continue
+					}
+				}
+				rec(append(ops, a))
+			}
+		}
+		rec(nil)
 	}
 	h.R.Extra["pairs"] = 741
 	h.Done()
